@@ -89,12 +89,15 @@ class DepSet(boolean.AndRestriction, caching=False):
                     if not depsets[-1] or not raw_conditionals:
                         raise DepsetParseError(dep_str, attr=attr)
                     elif raw_conditionals[-1] in operators:
-                        if len(depsets[-1]) == 1:
+                        operator = operators[raw_conditionals[-1]]
+                        # a lone member stands for its group, unless the group
+                        # type says otherwise ('?? ( a )' holds without a).
+                        if len(depsets[-1]) == 1 and getattr(
+                            operator, "_evaluate_collapse_single", True
+                        ):
                             depsets[-2].append(depsets[-1][0])
                         else:
-                            depsets[-2].append(
-                                operators[raw_conditionals[-1]](*depsets[-1])
-                            )
+                            depsets[-2].append(operator(*depsets[-1]))
                     else:
                         node_conds = True
                         c = raw_conditionals[-1]
